@@ -71,10 +71,19 @@ pub(crate) async fn start(
 
                     let client_id = session.client_id;
                     let acceptor = acceptor.clone();
-                    let stream = acceptor.accept(stream).await.unwrap();
                     let system = system.clone();
-                    let mut sender = SenderKind::get_tcp_tls_sender(stream);
                     tokio::spawn(async move {
+                        // The handshake runs in the task of the connection, so a peer which fails
+                        // or delays it cannot stop or stall the listener.
+                        let stream = match acceptor.accept(stream).await {
+                            Ok(stream) => stream,
+                            Err(error) => {
+                                error!("TLS handshake failed for client: {client_id}, address: {address}. {error}");
+                                system.read().await.delete_client(client_id).await;
+                                return;
+                            }
+                        };
+                        let mut sender = SenderKind::get_tcp_tls_sender(stream);
                         if let Err(error) =
                             handle_connection(session, &mut sender, system.clone()).await
                         {
